@@ -133,8 +133,9 @@ func addLeaf(t Tree, r *Route, s *Segment, h Handler) (Leaf, error) {
 
 	if leaf.getSegment().Optional {
 		parent := leaf.getParent()
+		var implicitLeaf Leaf
 		if parent.getParent() != nil {
-			_, err = addLeaf(parent.getParent(), r, parent.getSegment(), h)
+			implicitLeaf, err = addLeaf(parent.getParent(), r, parent.getSegment(), h)
 			if err != nil {
 				return nil, errors.Wrap(err, "add optional leaf to grandparent")
 			}
@@ -142,12 +143,13 @@ func addLeaf(t Tree, r *Route, s *Segment, h Handler) (Leaf, error) {
 			// The parent is the root which is not derived from any segment, i.e. the
 			// optional segment is the only segment of the route (e.g. "/?b"), and the
 			// route without it is "/".
-			_, err = addLeaf(parent, r, &Segment{Pos: s.Pos, Slash: "/"}, h)
+			implicitLeaf, err = addLeaf(parent, r, &Segment{Pos: s.Pos, Slash: "/"}, h)
 			if err != nil {
 				return nil, errors.Wrap(err, "add optional leaf to parent")
 			}
 			leaves = t.getLeaves() // The parent is this very tree.
 		}
+		leaf.setImplicitLeaf(implicitLeaf)
 	}
 
 	// Determine leaf position by the priority of match styles.
